@@ -46,7 +46,7 @@ def _zl(xs):
 
 
 def _nl(xs):
-    return "[" + "; ".join(str(int(x)) for x in xs) + "]"
+    return "[" + "; ".join("%d%%nat" % int(x) for x in xs) + "]"
 
 
 def _b(x):
